@@ -143,6 +143,19 @@ def check_match(case, ctx):
     require(all(x < y for x, y in zip(i2.tolist(), i2.tolist()[1:])),
             "second index array not strictly increasing: %r", i2.tolist())
     require(got == exp, "pairs differ from the model: got %r expected %r", got, exp)
+    if lay == "plain" and mode == "plain" and isinstance(arg1, np.ndarray) and a1.size >= 2:
+        # the caller re-orders his first array in place and matches again with the same object: the pairs must
+        # follow the new contents
+        arg1[...] = arg1[::-1].copy()
+        r3 = must(nu.match, arg1, arg2)
+        pos3 = {}
+        for i, v in enumerate(arg1.tolist()):
+            pos3[_key(dt, v) if dt in FLT_TYPES else v] = i
+        exp3 = [(pos3[k], j) for j, k in enumerate((_key(dt, v) if dt in FLT_TYPES else v) for v in a2.tolist())
+                if k in pos3]
+        got3 = list(zip(np.asarray(r3[0]).tolist(), np.asarray(r3[1]).tolist()))
+        require(got3 == exp3, "match() after the first array was reversed in place (same object): got %r, the model "
+                "gives %r", got3[:8], exp3[:8])
     if lay != "plain" and mode in ("plain", "presorted", "multi") and a1.dtype.kind in "iuf":
         # the same array objects matched a second time give the same pairs (nothing was done to them)
         fn = nu.match_multi if mode == "multi" else nu.match
@@ -201,6 +214,12 @@ def classify_match(case):
 
 @st.composite
 def dedup_cases(draw, with_flag):
+    if draw(st.integers(0, 19)) == 0:
+        # large inputs (expanded from a seed): few distinct values, many duplicates, flags that differ
+        return {"dtype": draw(st.sampled_from(["i8", "i4", "f8"])), "values": draw(st.booleans()),
+                "big": {"n": draw(st.sampled_from([1001, 4097, 10001, 20011, 65537])),
+                        "seed": draw(st.integers(0, 2 ** 32 - 1)), "ndistinct": draw(st.sampled_from([1, 2, 7, 50, 1000]))},
+                "flag_dtype": draw(st.sampled_from(["i4", "i8", "f8"])) if with_flag else None}
     dt = draw(st.sampled_from(INT_TYPES + FLT_TYPES + STR_TYPES))
     pool = draw(st.lists(_elements(dt), min_size=1, max_size=6, unique_by=lambda v: _key(dt, v)))
     arr = draw(st.lists(st.sampled_from(pool), min_size=1, max_size=draw(st.sampled_from([1, 2, 4, 12, 40]))))
@@ -228,6 +247,23 @@ def dedup_cases(draw, with_flag):
     return case
 
 
+def _dedup_arrays(case):
+    """(arr, flag or None) of a de-duplication case."""
+    dt = case["dtype"]
+    if "big" not in case:
+        a = _np(dt, case["arr"])
+        flag = np.array(case["flag"], dtype=case["flag_dtype"]) if case.get("flag") is not None else None
+        return a, flag
+    b = case["big"]
+    rng = np.random.Generator(np.random.PCG64(b["seed"]))
+    pool = rng.permutation(5 * b["ndistinct"])[:b["ndistinct"]] - 2 * b["ndistinct"]
+    a = pool[rng.integers(0, b["ndistinct"], size=b["n"])].astype(dt)
+    flag = None
+    if case.get("flag_dtype"):
+        flag = rng.integers(-1000, 1000, size=b["n"]).astype(case["flag_dtype"])
+    return a, flag
+
+
 def _distinct_positions(dt, a):
     groups = {}
     for i, v in enumerate(a.tolist()):
@@ -238,7 +274,7 @@ def _distinct_positions(dt, a):
 def check_unique(case, ctx):
     import esutil.numpy_util as nu
     dt = case["dtype"]
-    a = _np(dt, case["arr"])
+    a, _ = _dedup_arrays(case)
     groups = _distinct_positions(dt, a)
     idx = np.atleast_1d(must(nu.unique, a))
     require(idx.dtype.kind in "iu", "unique() indices are not integers: %r", idx.dtype)
@@ -258,8 +294,7 @@ def check_unique(case, ctx):
 def check_rem_dup(case, ctx):
     import esutil.numpy_util as nu
     dt = case["dtype"]
-    a = _np(dt, case["arr"])
-    flag = np.array(case["flag"], dtype=case["flag_dtype"])
+    a, flag = _dedup_arrays(case)
     groups = _distinct_positions(dt, a)
     if case["values"]:
         r = must(nu.rem_dup, a, flag, values=True)
@@ -285,6 +320,9 @@ def check_rem_dup(case, ctx):
 
 def classify_dedup(case):
     dt = case["dtype"]
+    if "big" in case:
+        return ["dtype:" + dt, "nt:ties", "size:%s" % ("<=10000" if case["big"]["n"] <= 10000 else ">10000"),
+                "ndistinct:%d" % case["big"]["ndistinct"]]
     ks = [_key(dt, v) for v in case["arr"]]
     nd = len(set(ks))
     labs = ["dtype:" + dt, "ndistinct:%s" % (nd if nd < 3 else "3+")]
